@@ -469,8 +469,7 @@ type worker struct {
 	privState pstate
 	chain     []chainStep // chain part: the loads the link.lisp files still have to perform
 	clevel    int
-	mform     string // one-form part: the guard id of the form the multi.lisp files evaluate, and its locations
-	mlocs     []string
+	mlocs     []string            // one-form part: the locations the form of the loading file is applied to
 	cbase     map[string]string   // chain part: marks of the same chain driven by LoadFile / load-file only
 	sbase     map[string]string   // scope part: outcome of a single top-level load, per (configuration, file, primitive, target)
 	hstates   map[string]struct{} // history part: canonical states seen by this worker
